@@ -3,8 +3,8 @@
 proof gate (coq/Props/C01.v) + random programs over the public operations of np_conserved (harness/npc_gen.py),
 run in both configurations ('py' pure Python, 'cy' rebuilt extension); after EVERY step the result is compared
 with the same numpy operation on the dense forms (labels, qtotal, per-leg (ind_len, qconj, qflat) as documented);
-the operations covered by coq/Model/TensorOps.v are additionally executed by the Coq model (vm_compute) on the
-recorded storage of the operands and compared with what the implementation returned.
+the operations covered by coq/Model/TensorOps.v (and the block values of tensordot, coq/Model/TensorDot.v) are additionally
+executed by the Coq model (vm_compute) on the recorded storage of the operands and compared with what the implementation returned.
 """
 import json
 import os
@@ -14,7 +14,7 @@ import c01_common as cc
 import npc_gen
 
 PROP = 'C01'
-COQ_IMPORTS = ['Base.Prelude', 'Model.Charge', 'Model.Tensor', 'Model.TensorOps', 'Model.TensorCheck']
+COQ_IMPORTS = ['Base.Prelude', 'Model.Charge', 'Model.Tensor', 'Model.TensorOps', 'Model.TensorCheck', 'Model.TensorDot', 'Model.TensorDotCheck']
 
 
 def replay(ctx, prop):
@@ -109,7 +109,7 @@ def main(ctx):
         ctx.proof = None
         return replay(ctx, PROP)
     rng = ctx.rng
-    ctx.proof = common.check_proofs(PROP, extra_targets=['Model/TensorCheck.vo', 'Model/LabelsCheck.vo'])
+    ctx.proof = common.check_proofs(PROP, extra_targets=['Model/TensorCheck.vo', 'Model/LabelsCheck.vo', 'Model/TensorDotCheck.vo'])
     nprog = ctx.pick(1400, 12000)
     nleg = ctx.pick(1500, 10000)
     if not ctx.proof.ok:
@@ -127,7 +127,7 @@ def main(ctx):
         all_hist[config] = {k: v for k, v in sorted(hist.items())}
         if notes:
             ctx.notes.append('%s: observations outside C01 (not counted): %s' % (config, dict(sorted(notes.items())[:12])))
-        n, per_op = coq_stream(ctx, PROP, results, programs, 'check_case_c01', ctx.pick(700, 4000))
+        n, per_op = coq_stream(ctx, PROP, results, programs, 'check_case_c01v', ctx.pick(700, 4000))
         coq_done[config] = {'cases': n, 'per_op': per_op}
     legprogs = [npc_gen.make_leg_program(rng) for _ in range(nleg)]
     results, infos, crashes = cc.run_programs('legs', legprogs, 'py', False)
@@ -141,7 +141,7 @@ def main(ctx):
         'C01 oracle: numpy on dense arrays with small integer / Gaussian-integer entries (exact in float64); the documented index map of a LegPipe '
         '(C-order over incoming blocks, stable sort by charge, bunch) is re-implemented in harness/npc_gen.py',
         'C01 not generated: legs without any block (block_number == 0) and index selections that keep nothing; add_leg(axis=rank); dtype promotion is not compared',
-        'C01 Coq model covers transpose, conj, scalar multiplication, addition (sorted merge), outer and the charge bookkeeping of tensordot; all other operations are '
+        'C01 Coq model covers transpose, conj, scalar multiplication, addition (sorted merge), outer and tensordot (rows, charges and dense values; not full contractions); all other operations are '
         'checked by the numpy oracle only',
     ]
     return ctx.finish(RULE, 'theorems of coq/Props/C01.v about the block-sparse model (Model/Tensor.v, TensorOps.v, Labels.v); model executed against both '
